@@ -3,6 +3,7 @@ package ctl
 import (
 	"context"
 	"fmt"
+	"github.com/blugelabs/bluge/search/aggregations"
 	"runtime/debug"
 	"sort"
 	"strconv"
@@ -395,13 +396,15 @@ type Obs struct {
 	ByID   []Doc     `json:"byid"`   // union of per-id term lookups
 	Dict   []DictEnt `json:"dict"`   // dictionary scan of field _id (deep observations only)
 	Fields []string  `json:"fields"` // Reader.Fields(), sorted copy (deep observations only)
+	None   []Doc     `json:"none"`   // match-all with scoring switched off (the unadorned iterators), deep observations only
+	Agg    int       `json:"agg"`    // count aggregation of that search
 	Sorted []Doc     `json:"sorted"` // doc values: sorted by u
 	Err    string    `json:"err"`
 }
 
 // ErrObs is an observation that failed as a whole (no nil slices: the trace reader rejects JSON null).
 func ErrObs(msg string) Obs {
-	return Obs{Docs: []Doc{}, ByID: []Doc{}, Dict: []DictEnt{}, Sorted: []Doc{}, Fields: []string{}, Err: msg}
+	return Obs{Docs: []Doc{}, ByID: []Doc{}, Dict: []DictEnt{}, Sorted: []Doc{}, Fields: []string{}, None: []Doc{}, Err: msg}
 }
 
 func sortDocs(d []Doc) {
@@ -441,7 +444,7 @@ func Observe(r *bluge.Reader, ids []string, deep bool) (o Obs) {
 			o.Err = fmt.Sprintf("panic: %v", p)
 		}
 	}()
-	o.Docs, o.ByID, o.Dict, o.Sorted, o.Fields = []Doc{}, []Doc{}, []DictEnt{}, []Doc{}, []string{}
+	o.Docs, o.ByID, o.Dict, o.Sorted, o.Fields, o.None = []Doc{}, []Doc{}, []DictEnt{}, []Doc{}, []string{}, []Doc{}
 	n, err := r.Count()
 	if err != nil {
 		o.Err = err.Error()
@@ -493,6 +496,22 @@ func Observe(r *bluge.Reader, ids []string, deep bool) (o Obs) {
 		}
 		o.Sorted = append(o.Sorted, docOf(r, m.Number))
 	}
+	// the same documents with scoring switched off (other iterators: no frequencies, no norms) and a count aggregation
+	nreq := bluge.NewTopNSearch(1000, bluge.NewMatchAllQuery()).SetScore("none").SortBy([]string{"_id"})
+	nreq.AddAggregation("n", aggregations.CountMatches())
+	it, err = r.Search(context.Background(), nreq)
+	if err != nil {
+		o.Err = err.Error()
+		return
+	}
+	for m, err := it.Next(); m != nil || err != nil; m, err = it.Next() {
+		if err != nil {
+			o.Err = err.Error()
+			return
+		}
+		o.None = append(o.None, docOf(r, m.Number))
+	}
+	o.Agg = int(it.Aggregations().Metric("n"))
 	// the field list (a copy, sorted: the order in which segments contribute is not part of the answer)
 	if fs, ferr := r.Fields(); ferr != nil {
 		o.Err = ferr.Error()
